@@ -374,6 +374,7 @@ func checkC08(c *core.Ctx, r *core.Report) {
 	c08Count16(c, r)
 	c08Redirect(c, r, lockAnalysis(c))
 	c08DatapointCounted(c, r)
+	c08StagingBuffersStartEmpty(c, r)
 	checkWalAfterBlockNumber(c, r, newSummaries(c))
 
 	writeBits := c.Obj(pkgCompress, "bitWriter.writeBits")
